@@ -18,7 +18,10 @@ RULE = ("Two generated families. (tree) Hypothesis draws operator trees whose le
         "inside the root is tested on the dense reference matrix. (routine) outputs of lanczos, arnoldi, eig (all "
         "rules/algorithms, incl. explicit Eig on declared-SelfAdjoint operators with repeated eigenvalues), svd, exp/log/sqrt/pow, inv(Unitary), pinv(CG) are tested the same way. Second half: B = Ann(A) "
         "has the same dense matrix, annotations = A.annotations | {Ann}, and A is unchanged. Non-trivial: some node reports "
-        "an annotation it was not directly declared with (inferred, or attached by a routine).")
+        "an annotation it was not directly declared with (inferred, or attached by a routine)."
+        " Further: annotated structured operators under one combinator incl. congruences (TraitGen.annotated),"
+        " indefinite Hermitian inputs and user functions with real / complex coefficients for the unary routines,"
+        " rank-deficient and complex diagonals for svd.")
 ASSUMPTIONS = [
     "SelfAdjoint: ||M-M^H|| <= 1e-5 max(1,||M||); PSD: additionally lambda_min >= -1e-5 max(1,||M||); Stiefel: ||M^H M - I|| <= 1e-5; Unitary: square and both products",
     "the user's declarations are true by construction of the generator (PD = B B^H + cI, Hermitian = B + B^H, unitary = signed permutations / FFT / Householder with unit vector)",
